@@ -329,6 +329,22 @@ void reload_untouched(World &w, const Spec &L, const char *ctx) {
 }  // namespace
 
 size_t snapshot_count() { return snaps().size(); }
+
+// An intact snapshot as an ordinary source of the topo machine (plan header "src snap <index> <comp> [<env>]"): `t` is initialised and configured
+// (filters, flags) by the caller; the environment is set around hwloc_topology_load() only. Reads the shared master copy, no private tree needed.
+int snapshot_load(hwloc_topology_t t, size_t index, unsigned comp, unsigned env, std::string *desc) {
+  std::vector<Snap> &all = snaps(); if (all.empty()) return -1;
+  Snap &s = all[index % all.size()]; if (!ensure_listed(s)) return -1;
+  s.use_private = false;
+  std::vector<std::string> cs = comps_of(s); std::string c = cs[comp % cs.size()];
+  if (desc) *desc = s.kind + "/" + s.name + " " + c + " env=" + std::to_string(env % s.envs.size());
+  EnvGuard g; bool lin = c.find("linux") != std::string::npos, x86 = c.find("x86") != std::string::npos;
+  g.set("HWLOC_COMPONENTS", c);
+  if (lin && s.has_fsroot()) { g.set("HWLOC_FSROOT", s.fsroot()); g.set("HWLOC_DUMPED_HWDATA_DIR", "/var/run/hwloc"); }
+  if (x86 && s.has_cpuid()) g.set("HWLOC_CPUID_PATH", s.cpuid());
+  for (auto &kv : s.envs[env % s.envs.size()]) g.set(kv.first, kv.second);
+  return hwloc_topology_load(t);
+}
 const char *snapshot_kind(size_t i) { return i < snaps().size() ? snaps()[i].kind.c_str() : ""; }
 
 bool ops_snapshot(World &w, const Op &o) {
@@ -349,8 +365,8 @@ bool ops_snapshot(World &w, const Op &o) {
     if (s.use_private && !ensure_extracted(s)) { r.ev("snap_load: snapshot not available"); r.count("snap_unavailable"); return true; }
     Stash st(s); Rng g(o.u("rs")); Fnv rh; unsigned moved = 0;
     std::vector<size_t> draws; for (unsigned i = 0; i < nrem; i++) draws.push_back((size_t)(g.next() % s.removable.size()));
-    if (o.has("paths") && !c01 && !s.removable.empty()) {   // explicit removal set (hand-written / minimised replays): comma-separated indices into the removable list
-      draws.clear(); std::string pl = o.s("paths"); size_t p = 0; while (p < pl.size()) { size_t e = pl.find(',', p); if (e == std::string::npos) e = pl.size(); if (e > p) draws.push_back((size_t)(strtoull(pl.substr(p, e - p).c_str(), nullptr, 0) % s.removable.size())); p = e + 1; }
+    if (o.has("paths") && !c01 && !s.removable.empty()) {   // explicit removal set (hand-written / minimised replays): comma-separated indices into the removable list, or relative paths
+      draws.clear(); std::string pl = o.s("paths"); size_t p = 0; while (p < pl.size()) { size_t e = pl.find(',', p); if (e == std::string::npos) e = pl.size(); if (e > p) { std::string tk = pl.substr(p, e - p); if (isdigit((unsigned char)tk[0])) draws.push_back((size_t)(strtoull(tk.c_str(), nullptr, 0) % s.removable.size())); else { auto it = std::lower_bound(s.removable.begin(), s.removable.end(), tk); if (it != s.removable.end() && *it == tk) draws.push_back((size_t)(it - s.removable.begin())); } } p = e + 1; }   // an index, or the path itself
       nrem = (unsigned)draws.size();
     }
     for (size_t idx : draws) { if (st.remove(s.removable[idx])) { moved++; rh.u64(idx); if (r.verbose) printf("SNAP removed [%zu] %s\n", idx, s.removable[idx].c_str()); } }
